@@ -31,6 +31,7 @@ func checkC11(c *Ctx) {
 		}
 		c11Transitions(c, p, m)
 		c11Encoder(c, p, m)
+		optionsInOrder(c, p, "R11.4")
 		freshChildren(c, p, m, "R11.5", func(n string) bool { return n == "WithJSONMode" || n == "WithColorMode" })
 		// the record's shape must come from this record's mode only: no pooled encoder field is read stale in any mode
 		c09Pooled(c, p, m, "R11.6", feasibleModes)
